@@ -667,7 +667,7 @@ class RecipeGen:
             is_method = k >= n - router_methods
             if is_method:
                 deco = "abi"
-                nparams = r.choice([0, 1, 1, 2, 2, 3, 4]) if not (self.f["many_args"] and r.random() < 0.1) else 16
+                nparams = r.choice([0, 1, 1, 2, 2, 3, 4]) if not (self.f["many_args"] and r.random() < 0.3) else r.choice([15, 16, 17])
                 params = []
                 for _ in range(nparams):
                     if self.f["ref_txn_args"] and r.random() < 0.15:
@@ -676,6 +676,8 @@ class RecipeGen:
                         params.append(["abi", r.choice(self.VALUE)])
                 # ARC-4: transaction args must... (any position is allowed by PyTeal)
                 ret = r.choice(["void", "uint64", "string", "bool", "(uint64,uint8)", "uint64[]", "uint8"])
+                if nparams >= 15 and r.random() < 0.5:
+                    ret = "void"
             else:
                 deco = r.choice(["sub", "sub", "abi"]) if self.f["abi"] else "sub"
                 nparams = r.choice([0, 1, 1, 2, 2, 3])
